@@ -73,6 +73,11 @@ CHECKS["C17"] = dict(
    technique="TLA+ decision/effect tables (ApiGate.tla) checked by TLC and replayed in full against the live HTTP listener of real agents",
    text="The access matrix (token set/unset x 7 routes + unknown path x 4 methods x 7 Authorization header shapes) and the effect table (12 statement classes on the two read endpoints) are small enough to enumerate completely; every combination is executed against a real listener, rejected requests must be client errors without any effect on database, schema and bookkeeping, and no statement class on a read endpoint may change the node. The route list is extracted from the source and must match the specification.",
    note="finite catalogue of statement classes stands in for 'every SQL text'; two agents; loopback HTTP")
+CHECKS["C15"] = dict(
+   level="model_checking", engine="schema", design="§6/C15",
+   technique="TLA+ spec Schema.tla (accept = constrain + diff rules, merge) checked by TLC; every edge of its state graph replayed through the real api_v1_db_schema on real agents incl. restart",
+   text="TLC checks Additive over all sequences of submissions from an 18-entry catalogue (new tables, added columns, forbidden edits of every kind, syntax errors at statement 1/2, multi-statement submissions mixing valid and forbidden edits). All 720 edges (schema state x submission) are executed on real agents whose tables hold rows: HTTP status, PRAGMA table_info/index_list, row counts, __corro_schema and the in-memory schema must equal the model after every submission (so a rejected submission leaves everything unchanged and re-applying changes nothing), and again after a restart on the same files.",
+   note="finite catalogue over three tables; SQL generated from abstract definitions; restart = setup()+init_schema")
 CHECKS.update({
  "C01": repl("§6/C01", "TLC checks NoInvention / NoLoss (a node that claims a version has every change of it that has not lost globally) / Converged / MergeOfAll on every behaviour of small instances (any delivery order, duplication, re-cut, loss, batching, sync serving, restart); seeded walks over 2-3 real agents are accepted only if every step is the specification's step, and the final drain must reach quiescence with byte-identical tables equal to the merge of all acknowledged transactions."),
  "C03": repl("§6/C03", "TLC checks Atomic (nothing of a remote version visible before the step that applies it), CoveredIsPending and BufferedHaveRecord on the model; real walks with re-cut, overlapping, duplicated chunks from origin and relays in batches are validated step by step, the harness observes the apply trigger exactly when the specification says the version is covered, and the drain must resolve every partial version."),
@@ -127,6 +132,7 @@ def main():
             {"name": "sublifecycle", "path": "specs/SubLifecycle.tla + harness/src/sublife.rs + lib/prop_c13.py", "serves_properties": ["C13"], "kind_free_text": "TLA+ model checked by TLC; real stop/restart scenarios judged"},
             {"name": "cluster", "path": "specs/Cluster.tla + harness/src/clusterprobe.rs + lib/prop_c16.py", "serves_properties": ["C16"], "kind_free_text": "TLA+ model checked by TLC; matrix replayed on real agents"},
             {"name": "apigate", "path": "specs/ApiGate.tla + harness/src/apigate.rs + lib/prop_c17.py", "serves_properties": ["C17"], "kind_free_text": "enumerated tables checked by TLC and replayed on a live listener"},
+            {"name": "schema", "path": "specs/Schema.tla + lib/schema_cat.py + harness/src/schemareplay.rs + lib/prop_c15.py", "serves_properties": ["C15"], "kind_free_text": "TLA+ model checked by TLC; all edges replayed on real agents"},
             {"name": "replication", "path": "specs/Replication.tla + specs/TraceReplication.tla + specs/MCReplication*.tla + harness/src/sim.rs + lib/repl.py + lib/repl_check.py", "serves_properties": ["C01", "C03", "C05", "C06", "C07"], "kind_free_text": "TLA+ model checked by TLC; recorded walks of real agents validated against the spec; counter-examples replayed on real agents"},
             {"name": "bookkeeping", "path": "specs/Bookkeeping.tla + specs/MCBookkeeping.tla + harness/src/bk.rs + lib/prop_c02.py", "serves_properties": ["C02"], "kind_free_text": "TLA+ model checked by TLC; all edges replayed on the real crates"},
         ],
